@@ -2941,9 +2941,12 @@ impl Compiler {
                     flags.into(),
                 ],
             );
-            Some(self.push_offset_placeholder())
+            self.push_offset_placeholder()
         } else {
-            None
+            // The function is unused, its body still gets compiled to check for errors,
+            // so jump over it to prevent it from being executed as part of the current frame.
+            self.push_op(Jump, &[]);
+            self.push_offset_placeholder()
         };
 
         let local_count = match u8::try_from(function.local_count) {
@@ -2975,9 +2978,7 @@ impl Compiler {
             ctx,
         )?;
 
-        if let Some(ip) = function_size_ip {
-            self.update_offset_placeholder(ip)?;
-        }
+        self.update_offset_placeholder(function_size_ip)?;
 
         if let Some(result_register) = result.register {
             for (i, expression) in optional_args.iter().enumerate() {
